@@ -253,15 +253,21 @@ func (f *Frame) callByContract(st *state, callee *ssa.Function, ct *FuncContract
 	u.usedCtr[ct.Key] = true
 	pre := &state{reach: st.reach, mem: st.mem.clone()}
 	envPre := u.funcEnv(callee, args, nil, pre, pre)
+	var domain []string
 	for _, c := range ct.Requires {
 		term, quant, err := u.evalClauseBool(envPre, c)
 		if err != nil {
 			u.specErrors = append(u.specErrors, fmt.Sprintf("%s requires %v", ct.Key, err))
 			continue
 		}
+		if c.Kind == "domain" {
+			domain = append(domain, term)
+			continue
+		}
 		o := u.oblige(f, st, "pre", fmt.Sprintf("%s %s.%s", f.ordLabel(ins, "call"), ct.Key, c.Label), ins.Pos(), term)
 		o.Quant = quant
 	}
+	inDomain := u.ctx.def("indomain", SBool, and(domain...))
 	for i, prm := range callee.Params {
 		if t := u.validTerm(prm.Type(), args[i], pre, i == 0 && callee.Signature.Recv() != nil); t != "true" {
 			u.oblige(f, st, "pre", fmt.Sprintf("%s %s.valid:%s", f.ordLabel(ins, "call"), ct.Key, prm.Name()), ins.Pos(), t)
@@ -324,7 +330,7 @@ func (f *Frame) callByContract(st *state, callee *ssa.Function, ct *FuncContract
 			u.specErrors = append(u.specErrors, fmt.Sprintf("%s ensures %v", ct.Key, err))
 			continue
 		}
-		u.ctx.assert("post:"+ct.Key+"."+c.Label, implies(st.reach, term))
+		u.ctx.assert("post:"+ct.Key+"."+c.Label, implies(st.reach, implies(inDomain, term)))
 	}
 	return packResults(resT, results)
 }
